@@ -374,6 +374,32 @@ def r13_1(ctx: Ctx):
                    "`%s` is not" % norm(bad_slices[0]), node=bad_slices[0])
             return
     if base_fields is None or any(b is None for b in base_fields):
+        # the written fields have no separator of their own (a value that fills its width touches the previous field), so a
+        # reader that cuts the numeric part of the line at white space instead of at column boundaries cannot read every
+        # line the writer produces
+        lp_ = [p_ for p_ in r.params if p_ not in ("cls", "self")][0]
+        from ..pat import single_defs as _sd131
+        sd131 = _sd131(r.node)
+
+        def _from_line(e_, d_=0):
+            if d_ > 4:
+                return False
+            if isinstance(e_, ast.Name):
+                return e_.id == lp_ or (e_.id in sd131 and _from_line(sd131[e_.id], d_ + 1))
+            if isinstance(e_, ast.Subscript):
+                return _from_line(e_.value, d_ + 1)
+            if isinstance(e_, ast.Call) and isinstance(e_.func, ast.Attribute) and e_.func.attr in ("strip", "rstrip", "lstrip", "replace", "expandtabs"):
+                return _from_line(e_.func.value, d_ + 1)
+            return False
+        ws_split = [c_ for c_ in ast.walk(r.node) if isinstance(c_, ast.Call) and isinstance(c_.func, ast.Attribute) and c_.func.attr == "split"
+                    and not c_.args and not c_.keywords and _from_line(c_.func.value)]
+        floats_from_tokens = any(isinstance(c_, ast.Call) and call_name(c_) == "float" for c_ in ast.walk(r.node))
+        if ws_split and floats_from_tokens:
+            ctx.ob("R13.1", r, ws_split[0], False, "the reader cuts every numeric field at the writer's column boundaries -- `%s` "
+                   "separates the fields at white space: a coordinate or velocity that fills its whole width (e.g. -999.999 "
+                   "with %%8.3f) has no blank before it, the two fields are read as one token and the line the writer produced is "
+                   "refused or misread" % norm(ws_split[0])[:70], node=ws_split[0])
+            return
         ctx.ob("R13.1", r, "reader slice table", True, "reader layout not in the recognised tuple-of-slices "
                "shape; column agreement not decided on this tree", undecided=True)
         return
